@@ -214,6 +214,9 @@ class OpSpec:
 
 
 OPS = {}
+# variants that run in Tier B only: with symbolic charges the charge test of get_block() inside _advanced_setitem_npc leaves a
+# branch whose feasibility z3 answers `unknown` (reported as a counterexample without a model)
+TIER_A_EXCLUDED = {('setitem', 'int_first_npc')}
 
 
 def op(name, variants=('d', ), inplace=False, owns=True, chain=False, tiers='AB', labels='', qtotal='', quick=None, props=('C01', 'C02', 'C03')):
@@ -478,8 +481,9 @@ def b_tensordot(W, v):
 def b_outer(W, v):
     a = W.first()
     la = a.get_leg_labels()
-    b = W.tensor('b', [W.xleg('bx'), W.xleg('by')] if W.tier == 'B' and a.rank < 3 else [W.xleg('bx')],
-                 labels=[la[0], 'q'][:2 if W.tier == 'B' and a.rank < 3 else 1])
+    two = W.tier == 'B' and a.rank < 3
+    second = 'q' if la[0] != 'q' else 'q2'  # (the injected operand of a depth-2 program may already carry the label 'q')
+    b = W.tensor('b', [W.xleg('bx'), W.xleg('by')] if two else [W.xleg('bx')], labels=[la[0], second][:2 if two else 1])
     return Sc([a, b], lambda a, b: W.npc.outer(a, b), lambda da, db: np.multiply.outer(da, db),
               labels=drop_dup(la, b.get_leg_labels()), qtotal=a.qtotal + b.qtotal,
               leg_q=[sq(l) for l in a.legs + b.legs])
@@ -817,6 +821,30 @@ def b_iscale_axis(W, v):
 
 # =============================================================================================
 # execution helpers shared by the property harnesses
+def build_scenario(ctx, W, name, v):
+    """build(W, v) with the exceptions of the *operand generator* kept apart from those of the operation under check:
+    Skip -> None (scenario not applicable); any other exception is a harness error (never a violation candidate)"""
+    try:
+        return OPS[name].build(W, v)
+    except Skip:
+        ctx.note('skipped')
+        ctx.prove(True, 'scenario not applicable')
+        return None
+    except Exception as e:  # noqa
+        if type(e).__name__ in ('SymLeak', 'RecursionError'):
+            raise
+        import traceback
+        tb = traceback.extract_tb(e.__traceback__)
+        where = ' < '.join(f"{fr.filename.split('/')[-1]}:{fr.lineno}:{fr.name}" for fr in reversed(tb[-3:]))
+        detail = f'operand generator of {name}/{v} raised {type(e).__name__}: {str(e)[:120]} @ {where}'
+        if ctx.symbolic:
+            ctx._fail(f'harness:generator {name}/{v}', 'harness', None, detail)
+        else:
+            ctx.note('generator_error')
+        ctx.prove(True, 'scenario could not be built (harness error reported separately)')
+        return None
+
+
 def execute(ctx, sc, tag):
     """run the real operation; documented exceptions are checked against their documented condition.
     Returns (ok, result)."""
@@ -1325,6 +1353,9 @@ def b_setitem(W, v):
         return Sc([a], call, oracle, inplace=True, raises=(IndexError, ctx.Not(allowed)), **_same(a))
     vv = {'slice_npc': 'slice', 'slice_flat': 'slice', 'negstep_npc': 'negstep', 'mask_flat': 'mask', 'int_first_npc': 'int_first'}[v]
     inds, full = _index_variants(W, a, vv)
+    # symbolic index objects would reach numpy's own indexing of the blocks (block[block_mask] = ...): concretise them
+    inds = tuple(int(i) if _is_symint(i) else i for i in inds)
+    full = tuple(int(i) if _is_symint(i) else i for i in full)
     keep, labels, qt, leg_q = _index_expect(a, full)
     if not keep:
         raise Skip()
